@@ -932,3 +932,85 @@ class C17(TreeSpec):
         for k, v in sim.inconclusive.items():
             info["inconclusive_" + k] = v
         return dict(viol=sim.viol, fired=sim.fired, nontrivial=(sim.model.ntrades >= 1 and sim.ticks >= 3), states=sim.states, bigrams=sim.bigrams, dates=sim.ticks, steps=sim.root_updates, info=info)
+
+
+@register
+class C12(Spec):
+    id = "C12"
+    tiers = {"quick": dict(runs=2500, builds=("py",), wall=75), "thorough": dict(runs=80000, builds=("py",), wall=1200)}
+    rule = (
+        "the simulator owns the clock: seeded date indices (business days, calendar gaps from a weekend to months, intraday stamps, starts just before year / quarter / ISO-week-52/53/1 / leap-day boundaries, sparse) are fed to real Backtest.run()s whose root and sub-strategy stacks hold "
+        "4-8 probes, each wrapping one scheduler with seeded flags / n / offset / dates, some invoked twice per date; every boolean returned on every date is compared with a reference calendar written from the statement (datetime / isocalendar only); "
+        "paper copies give the synthetic-row invocations, a copied strategy with an off-index `now` the outside-the-data case; distinct = plan digest; non-trivial = >= 20 judged booleans"
+    )
+    assumptions = ["the RunPeriod family is a pure function of (index, position): the clock shapes come from seeded generation (moderate fit, see DESIGN)", "RunAfterDays counts invocations by design; it is only judged with one invocation per date"]
+
+    def gen(self, r, tier, i):
+        n = r.choice([1, 2, 3, 5, 8, 13, 21, 34, 60 if tier == "thorough" else 40])
+        dates, style = feedmod.gen_dates(r, n)
+        prices = [[100.0 + k] for k in range(n)]
+        fspec = {"dates": dates, "tickers": ["A"], "prices": prices, "style": style}
+        probes = []
+        fam = ["RunDaily", "RunWeekly", "RunMonthly", "RunQuarterly", "RunYearly"]
+        for k in range(r.randint(4, 8)):
+            a = r.choice(fam + fam + ["RunOnce", "RunOnDate", "RunAfterDate", "RunAfterDays", "RunEveryNPeriods"])
+            if a in fam:
+                inner = {"a": a, "kw": {"run_on_first_date": r.random() < 0.5, "run_on_end_of_period": r.random() < 0.5, "run_on_last_date": r.random() < 0.5}}
+            elif a == "RunOnce":
+                inner = {"a": a}
+            elif a == "RunOnDate":
+                inner = {"a": a, "dates": sorted(r.sample(dates, r.randint(1, max(1, n // 2))))}
+            elif a == "RunAfterDate":
+                inner = {"a": a, "date": r.choice(dates)}
+            elif a == "RunAfterDays":
+                inner = {"a": a, "args": [r.randint(0, n + 1)]}
+            else:
+                k2 = r.randint(1, 6)
+                inner = {"a": a, "args": [k2], "kw": {"offset": r.randint(0, k2 - 1)}}
+            calls = 2 if (a != "RunAfterDays" and r.random() < 0.3) else 1
+            probes.append({"a": "Probe", "id": k, "inner": inner, "calls": calls})
+        sub = {"k": "S", "name": "sub", "cls": "Strategy", "fi": False, "how": "list", "children": [], "algos": list(probes)}
+        root = {"k": "S", "name": "top", "cls": "Strategy", "fi": False, "how": "list", "children": [sub] if r.random() < 0.5 else [], "algos": list(probes)}
+        cfg = {"integer": True, "comm": None, "capital": 1e6, "fi": False, "obs_price": False, "obs_eod": False, "profile": "sched"}
+        return {"driver": "engine", "cfg": cfg, "tree": root, "feed": fspec, "probes": probes, "fired": {"clock_" + style: 1}}
+
+    def run(self, bt, plan):
+        from .monitors import c12
+
+        sim, exc = drive_engine.run_light(bt, plan, seed=0)
+        viol = sim.viol
+        if exc is not None:
+            viol.append({"check": "c12_exception", "detail": "%s: %s" % (type(exc).__name__, str(exc)[:200]), "flags": {}})
+            return dict(viol=viol, fired=plan["fired"], nontrivial=False, info={})
+        nj = c12.judge(sim, plan)
+        c12.off_index(sim, plan)
+        fired = dict(plan["fired"])
+        dts = plan["feed"]["dates"]
+        import datetime as _dt
+
+        ds = [_dt.datetime.fromisoformat(x) for x in dts]
+        if any(a.year != b.year for a, b in zip(ds, ds[1:])):
+            fired["period_boundary_year"] = 1
+        if any(a.isocalendar()[1] in (52, 53) and b.isocalendar()[1] == 1 for a, b in zip(ds, ds[1:])):
+            fired["period_boundary_iso_week_52_53_1"] = 1
+        if any(a.date() == b.date() for a, b in zip(ds, ds[1:])):
+            fired["intraday"] = 1
+        if any((b - a).days > 4 for a, b in zip(ds, ds[1:])):
+            fired["calendar_gap"] = 1
+        if any(p["calls"] > 1 for p in plan["probes"]):
+            fired["dup_invocation"] = 1
+        return dict(viol=viol, fired=fired, nontrivial=nj >= 20, info={"booleans_judged": nj, "probes": len(plan["probes"])}, dates=len(dts), steps=nj)
+
+    def owns(self, check):
+        return check.startswith("c12_")
+
+    def simplifications(self, plan):
+        out = []
+        for i in range(len(plan["probes"])):
+            ps = plan["probes"][:i] + plan["probes"][i + 1:]
+            if ps:
+                t = dict(plan["tree"], algos=list(ps), children=[dict(c, algos=list(ps)) for c in plan["tree"]["children"]])
+                out.append(dict(plan, probes=ps, tree=t))
+        if plan["tree"]["children"]:
+            out.append(dict(plan, tree=dict(plan["tree"], children=[])))
+        return out
